@@ -17,6 +17,12 @@ package main
 //                                                        each set's full error list, positions included, must equal what
 //                                                        a FRESH PROCESS that handles only this set prints
 //                                                        (`harness race errdump <k> 0`, run as a child process)
+//   harness race pathsets  <iterations> <seed>          module sets read from FILES in directories of their own, each with a
+//                                                        same-named local import, all configured with AddPath from ONE
+//                                                        shared search-path list (built with append: spare capacity); the
+//                                                        steps AddPath / Read / Process of several pipelines are interleaved
+//                                                        step by step (random schedules, one goroutine) and run in parallel;
+//                                                        each set's dump must equal that of a fresh process (`race pathdump`)
 //   harness race selftest  0 0                          two goroutines race on purpose (is the detector on?)
 //
 // exit 0 and a line "OK ..." | exit 3 and lines "DIFF ..." | the race detector prints "WARNING: DATA RACE" and,
@@ -57,6 +63,14 @@ func init() {
 			return c19Readers(iters, seed, repo)
 		case "errsets":
 			return c19ErrSets(iters, seed, repo)
+		case "pathsets":
+			return c19PathSets(iters, seed)
+		case "pathdump": // fresh-process baseline: `race pathdump <k> 0 <repo> <root>`
+			if len(args) < 5 {
+				return 2
+			}
+			fmt.Print(c19PathPipelineAll(args[4], iters))
+			return 0
 		case "errdump": // fresh-process baseline of one error-producing set: `race errdump <k> 0`
 			ms, errs := c19Load(c19ErrSet(iters))
 			fmt.Print(c19Dump(ms, errs))
@@ -927,4 +941,179 @@ func c19FirstDiffLine(a, b string) (string, string) {
 		}
 	}
 	return a, b
+}
+
+// ------------------------------------------------------------------------------- mode pathsets
+
+const c19NPathSets = 4
+
+// c19PathFiles writes the library directories and one directory per set below root.
+func c19PathFiles(root string) error {
+	files := map[string]string{
+		"lib1/common.yang": "module common {\n  namespace \"urn:common\";\n  prefix c;\n  typedef id { type string { length \"1..8\"; } }\n}\n",
+		"lib2/extra.yang":  "module extra {\n  namespace \"urn:extra\";\n  prefix x;\n  grouping g { leaf from-extra { type string; } }\n}\n",
+		"lib3/unused.yang": "module unused {\n  namespace \"urn:unused\";\n  prefix u;\n}\n",
+	}
+	for k := 0; k < c19NPathSets; k++ {
+		K := strconv.Itoa(k)
+		// every set has a module called "local" next to its main module, different in every set
+		files["set"+K+"/local.yang"] = "module local {\n  namespace \"urn:local:of-set-" + K + "\";\n  prefix l;\n" +
+			"  typedef t { type uint" + []string{"8", "16", "32", "64"}[k%4] + "; }\n  grouping part { leaf local-of-set-" + K + " { type t; } }\n}\n"
+		files["set"+K+"/main-"+K+".yang"] = "module main-" + K + " {\n  namespace \"urn:main:" + K + "\";\n  prefix m;\n" +
+			"  import local { prefix l; }\n  import common { prefix c; }\n  import extra { prefix x; }\n" +
+			"  container top { uses l:part; uses x:g; leaf id { type c:id; } leaf own-" + K + " { type l:t; } }\n}\n"
+	}
+	for name, text := range files {
+		p := filepath.Join(root, name)
+		if err := os.MkdirAll(filepath.Dir(p), 0o755); err != nil {
+			return err
+		}
+		if err := os.WriteFile(p, []byte(text), 0o644); err != nil {
+			return err
+		}
+	}
+	return nil
+}
+
+// the search path every set is configured with: ONE list, grown with append (capacity left over)
+func c19PathLibs(root string) []string {
+	libs := make([]string, 0, 8)
+	for _, d := range []string{"lib1", "lib2", "lib3"} {
+		libs = append(libs, filepath.Join(root, d))
+	}
+	return libs
+}
+
+// one pipeline in three steps
+type c19PathPipe struct {
+	root string
+	k    int
+	ms   *yang.Modules
+	err  error
+}
+
+func (p *c19PathPipe) step(i int, libs []string) string {
+	switch i {
+	case 0:
+		p.ms = yang.NewModules()
+		p.ms.AddPath(libs...)
+	case 1:
+		p.err = p.ms.Read(filepath.Join(p.root, "set"+strconv.Itoa(p.k), "main-"+strconv.Itoa(p.k)+".yang"))
+	case 2:
+		if p.err != nil {
+			return c19Dump(p.ms, []error{p.err})
+		}
+		return c19Dump(p.ms, p.ms.Process())
+	}
+	return ""
+}
+
+func c19PathPipelineAll(root string, k int) string {
+	p := &c19PathPipe{root: root, k: k}
+	libs := c19PathLibs(root)
+	p.step(0, libs)
+	p.step(1, libs)
+	return p.step(2, libs)
+}
+
+func c19PathSets(iters int, seed int64) int {
+	self, err := os.Executable()
+	if err != nil {
+		fmt.Println("DIFF mode=pathsets cannot find own executable:", err)
+		return 3
+	}
+	root, err := os.MkdirTemp("", "c19paths")
+	if err != nil {
+		fmt.Println("DIFF mode=pathsets cannot create a temporary directory:", err)
+		return 3
+	}
+	defer os.RemoveAll(root)
+	if err := c19PathFiles(root); err != nil {
+		fmt.Println("DIFF mode=pathsets cannot write the module files:", err)
+		return 3
+	}
+	want := make([]string, c19NPathSets)
+	for k := range want {
+		cmd := exec.Command(self, "race", "pathdump", strconv.Itoa(k), "0", "-", root)
+		cmd.Dir = root // the current directory is searched first: keep it free of .yang files
+		out, err := cmd.Output()
+		if err != nil || !strings.HasPrefix(string(out), "errors=[]") || !strings.Contains(string(out), "local-of-set-"+strconv.Itoa(k)) {
+			fmt.Printf("DIFF mode=pathsets seed=%d fresh process for set %d failed or did not process cleanly: %v %.300q\n", seed, k, err, out)
+			return 3
+		}
+		want[k] = string(out)
+	}
+	if err := os.Chdir(root); err != nil {
+		fmt.Println("DIFF mode=pathsets chdir:", err)
+		return 3
+	}
+	rnd := rand.New(rand.NewSource(seed))
+	var mu sync.Mutex
+	var diffs []string
+	report := func(phase, sched string, it, g, k int, got string) {
+		gl, wl := c19FirstDiffLine(got, want[k])
+		mu.Lock()
+		diffs = append(diffs, fmt.Sprintf("DIFF mode=pathsets seed=%d phase=%s iteration=%d goroutine=%d set=%d schedule=%s: got %.200q, a fresh process handling this set alone gives %.200q",
+			seed, phase, it, g, k, sched, gl, wl))
+		mu.Unlock()
+	}
+	runs := 0
+	for it := 0; it < iters; it++ {
+		// step by step: 2 or 3 pipelines, a random interleaving of their steps, all from the same list
+		libs := c19PathLibs(root)
+		np := 2 + rnd.Intn(2)
+		pipes := make([]*c19PathPipe, np)
+		next := make([]int, np)
+		var order []int
+		for i, k := range rnd.Perm(c19NPathSets)[:np] {
+			pipes[i] = &c19PathPipe{root: root, k: k}
+			order = append(order, i, i, i)
+		}
+		rnd.Shuffle(len(order), func(a, b int) { order[a], order[b] = order[b], order[a] })
+		if it == 0 { // the textbook schedule first: A.AddPath B.AddPath A.Read B.Read A.Process B.Process
+			order = order[:0]
+			for s := 0; s < 3; s++ {
+				for i := range pipes {
+					order = append(order, i)
+				}
+			}
+		}
+		var sched []string
+		for _, i := range order {
+			sched = append(sched, fmt.Sprintf("%d.%d", pipes[i].k, next[i]))
+		}
+		for _, i := range order {
+			out := pipes[i].step(next[i], libs)
+			if next[i] == 2 && out != want[pipes[i].k] {
+				report("steps", strings.Join(sched, ","), it, 0, pipes[i].k, out)
+			}
+			next[i]++
+		}
+		runs += np
+		// in parallel, again from one list
+		libs = c19PathLibs(root)
+		pick := make([]int, c19N)
+		for g := range pick {
+			pick[g] = rnd.Intn(c19NPathSets)
+		}
+		start := make(chan struct{})
+		var wg sync.WaitGroup
+		for g := 0; g < c19N; g++ {
+			wg.Add(1)
+			go func(g int) {
+				defer wg.Done()
+				<-start
+				p := &c19PathPipe{root: root, k: pick[g]}
+				p.step(0, libs)
+				p.step(1, libs)
+				if out := p.step(2, libs); out != want[pick[g]] {
+					report("parallel", "-", it, g, pick[g], out)
+				}
+			}(g)
+		}
+		close(start)
+		wg.Wait()
+		runs += c19N
+	}
+	return c19Finish("pathsets", iters, seed, runs, c19NPathSets, diffs)
 }
